@@ -1258,6 +1258,10 @@ def canon_tv(node_tv, text: str | None, is_list_hint: bool) -> str:
     text = text or ''
     toks = text.split() if is_list_hint else [text]
     exact = len(toks) == len(vs)
+    if not exact and not is_list_hint and len(vs) > 1:
+        # a union whose LIST member decoded the text: the atoms follow the tokens
+        is_list_hint, toks = True, text.split()
+        exact = len(toks) == len(vs)
     if not exact and not is_list_hint:
         toks = [text] + text.split()
     if exact or not is_list_hint or not toks:
@@ -2224,7 +2228,8 @@ def shared_token_history(run: Run, cases: list, xs, proxy, hist_log: list) -> No
     st = run.stats
     star = ('*',)
     exprs = [path_xpath(R_('//', ('c', star, ('l',)))), path_xpath(R_(('c', ('n', clark('root'))), ('c', star, ('p', 2)))),
-             path_xpath(('s', R_('//', ('c', star)), 'pa', ('nd',), ('t',), ('t',)))]
+             path_xpath(('s', R_('//', ('c', star)), 'pa', ('nd',), ('t',), ('t',))),
+             '//schema-element(t:root)', 'child::schema-element(t:root)']
     impl0 = Impl(cases[0], xs=xs, proxy=proxy)
     parser = impl0.XPath2Parser(namespaces=dict(PNS), schema=proxy)
     toks = {e: parser.parse(e) for e in exprs}
@@ -2242,7 +2247,14 @@ def shared_token_history(run: Run, cases: list, xs, proxy, hist_log: list) -> No
                 res = toks[e].evaluate(ctx)
                 got['token.evaluate'] = nodes_to_idx(root, nt, res if isinstance(res, list) else [res])
                 root, nt, ctx = impl.tree(True, as_doc=False)
+                before = (ctx.item, ctx.axis)
                 got['token.get_results'] = nodes_to_idx(root, nt, toks[e].get_results(ctx))
+                if ctx.item is not before[0] or ctx.axis != before[1]:
+                    got['token.get_results'] = 'ERR:context-not-restored'
+                before = (ctx.item, ctx.axis)
+                toks[e].evaluate(ctx)
+                if ctx.item is not before[0] or ctx.axis != before[1]:
+                    got['token.evaluate (context)'] = 'ERR:context-not-restored'
                 root = impl.parse_xml()
                 nt = impl.get_node_tree(root, namespaces=impl.ctx_namespaces())
                 got['Selector.select'] = nodes_to_idx(root, nt, sels[e].select(root))
